@@ -302,6 +302,43 @@ func targets() []*target {
 			params: []string{"(g_hex : bytes)", "(m_safeSet : list (Z * bool))", "(s_jsonMode : bool)", "(s_buf : bytes)", "(str : bytes)"},
 			result: "option bytes", final: "Some (s_buf)"},
 
+		// ---- the colour helpers of colorize_tool.go (C06) ----
+		// out is the io.Writer the helper writes to, as the bytes it holds (every Write appends; the count and
+		// the error are dropped by the source: `_, _ =`); strconv.Itoa is Dec.dec_of_Z; clrNone is read as its
+		// initialiser
+		{pkg: slogPkg, recv: "colorizeToolS", fn: "echoColor", coq: "echo_color", file: "Colors", strict: true, fallback: "ColorRef.echo_color_ref",
+			comment: "(returns what out holds; None = panic)", panicT: "None", retfmt: "Some (%s)", effects: []string{"out"}, inlineVars: true,
+			tymap: map[string]string{"[]byte": "bytes", "io.Writer": "bytes", "color.Color": "Z"},
+			calls:  map[string]callSpec{"io.Writer.Write": {state: "out ++ %0"}, "strconv.Itoa": {pure: "dec_of_Z %0"}},
+			params: []string{"(out : bytes)", "(clr : Z)"}, result: "option bytes", final: "Some (out)"},
+		{pkg: slogPkg, recv: "colorizeToolS", fn: "echoBgColor", coq: "echo_bg_color", file: "Colors", strict: true, fallback: "ColorRef.echo_color_ref",
+			comment: "(returns what out holds; None = panic)", panicT: "None", retfmt: "Some (%s)", effects: []string{"out"}, inlineVars: true,
+			tymap: map[string]string{"[]byte": "bytes", "io.Writer": "bytes", "color.Color": "Z"},
+			calls:  map[string]callSpec{"io.Writer.Write": {state: "out ++ %0"}, "strconv.Itoa": {pure: "dec_of_Z %0"}},
+			params: []string{"(out : bytes)", "(clr : Z)"}, result: "option bytes", final: "Some (out)"},
+		{pkg: slogPkg, recv: "colorizeToolS", fn: "echoColorAndBg", coq: "echo_color_bg", file: "Colors", strict: true, fallback: "ColorRef.echo_color_bg_ref",
+			comment: "(returns what out holds; None = panic)", panicT: "None", retfmt: "Some (%s)", effects: []string{"out"}, inlineVars: true,
+			tymap: map[string]string{"[]byte": "bytes", "io.Writer": "bytes", "color.Color": "Z"},
+			calls:  map[string]callSpec{"io.Writer.Write": {state: "out ++ %0"}, "strconv.Itoa": {pure: "dec_of_Z %0"}},
+			params: []string{"(out : bytes)", "(clr bg : Z)"}, result: "option bytes", final: "Some (out)"},
+		{pkg: slogPkg, recv: "colorizeToolS", fn: "echoResetColor", coq: "echo_reset", file: "Colors", strict: true, fallback: "ColorRef.echo_reset_ref",
+			comment: "(returns what out holds; None = panic)", panicT: "None", retfmt: "Some (%s)", effects: []string{"out"},
+			tymap: map[string]string{"[]byte": "bytes", "io.Writer": "bytes"},
+			calls:  map[string]callSpec{"io.Writer.Write": {state: "out ++ %0"}},
+			params: []string{"(out : bytes)"}, result: "option bytes", final: "Some (out)"},
+		{pkg: slogPkg, recv: "colorizeToolS", fn: "rightPad", coq: "right_pad", file: "Colors", strict: true, fallback: "ColorRef.right_pad_ref",
+			comment: "(None = panic)", panicT: "None", retfmt: "Some (%s)",
+			calls:  map[string]callSpec{"strings.Repeat": {pure: "str_repeat %0 %1", partial: true}},
+			params: []string{"(str padChar : bytes)", "(minw : Z)"}, result: "option bytes", final: "None"},
+		// strings.TrimRight with its cutset is ColorRef.str_trim_right (ASCII cutset: checked); named results
+		{pkg: slogPkg, recv: "colorizeToolS", fn: "splitFirstAndRestLines", coq: "split_first_rest", file: "Colors", strict: true, fallback: "ColorRef.split_first_rest_ref",
+			comment: "(returns (firstLine, restLines, eol); None = panic)", panicT: "None", retfmt: "Some (%s)",
+			calls: map[string]callSpec{
+				"strings.TrimRight": {pure: "str_trim_right %0 %1"},
+				"strings.IndexRune": {pure: "str_index_byte %0 %1", check: asciiRuneArg},
+			},
+			params: []string{"(str : bytes)"}, result: "option (bytes * bytes * bool)", final: "Some (firstLine, restLines, eol)"},
+
 		// ---- the logger tree (C10): Entry.newChildLogger and the inheritance at the head of newentry ----
 		// a *Entry is a reference (eref); the arguments are gargs (string / option / handler / other: the type
 		// assertions are oracles); the random name and newentry itself are parameters: the theorem shows WHICH
@@ -694,6 +731,7 @@ var genFiles = [][2]string{
 	{"Bridge", "Require Import Verif.Model.Base Verif.Model.Decision Verif.Model.GoSem Verif.Model.BridgeRef."},
 	{"Termination", "Require Import Verif.Model.Base Verif.Model.Decision Verif.Model.GoSem Verif.Model.Terminate Verif.Model.TermRef."},
 	{"Context", "Require Import Verif.Model.Base Verif.Model.Decision Verif.Model.GoSem Verif.Model.Attrs Verif.Model.PcRef."},
+	{"Colors", "Require Import Verif.Model.Base Verif.Model.Decision Verif.Model.Dec Verif.Model.GoSem Verif.Model.ColorRef."},
 	{"LevelNames", "Require Import Verif.Model.Base Verif.Model.Decision Verif.Model.Dec Verif.Model.GoSem Verif.Model.LevelRef."},
 }
 
